@@ -18,6 +18,21 @@
     playing the user.
  3. Binding self-tests: a corrupted expected state must be reported; a harness-side mutant object
     (sendline adding the separator twice / a log that is written after encoding) must be reported.
+ 4. The environment configurations of the same module (Env / Aw): the rest of the object's life between
+    the sends.  'life': blocking reads that end in TIMEOUT (timeout 0 / small) or EOF or a match (timeout
+    30 / None / default) before sends of small and larger-than-buffer payloads (up to 4 MB; the peer of a
+    socket reads only once the sender's buffer is full, so a socket that a read left non-blocking shows on
+    every run); the peer shuts its output side down and keeps reading (socket shutdown(SHUT_WR), Popen child
+    pointing fd 1+2 at /dev/null; PopenSpawn's reader thread is joined first); the peer goes away, the caller
+    closes the object, the peer does not read while a socket with a user timeout sends: send-family calls
+    that FAIL - the model says which piece fails, what may have reached the peer (a proper prefix of that
+    piece) and what the send log holds (every send() that was attempted, completely).  'await': awaited calls
+    on the virtual-time asyncio loop of harness/vloop.py (matched, cancelled by task.cancel() /
+    asyncio.wait_for, timed out) with child output arriving between two calls, mixed with blocking reads and
+    sends; the read log must hold what the object has taken in, when it took it in.  Both have whole-history
+    TLC runs (all 13 invariants), their own model mutants (socket left non-blocking, EOF closing the sending
+    side, log after write, late output not logged) and last-operation graphs of which every transition is
+    replayed on real objects like in 2.; binding self-tests in env_self_test().
 """
 import asyncio, codecs, copy, json, os, random, sys, time, traceback
 from multiprocessing import Pool
